@@ -294,6 +294,9 @@ func (s *parallelSolverImpl) Solve(
 	})
 
 	var solutionsMutex sync.Mutex
+	// bestSolution is read by the workers (start of a run) and written by the
+	// goroutine that collects their results.
+	var bestSolutionMutex sync.RWMutex
 	iterationsLeft := atomic.Int64{}
 	iterationsLeft.Store(int64(interpretedParallelSolveOptions.Iterations))
 	var waitGroup sync.WaitGroup
@@ -319,17 +322,17 @@ func (s *parallelSolverImpl) Solve(
 						}()
 
 						verifYield("worker_start")
+						bestSolutionMutex.RLock()
 						solution := bestSolution.Copy()
+						bestSolutionMutex.RUnlock()
 
 						verifYield("worker_pop")
+						solutionsMutex.Lock()
 						if len(solutions) > 0 {
-							solutionsMutex.Lock()
-							if len(solutions) > 0 {
-								solution = solutions[len(solutions)-1]
-								solutions = solutions[:len(solutions)-1]
-							}
-							solutionsMutex.Unlock()
+							solution = solutions[len(solutions)-1]
+							solutions = solutions[:len(solutions)-1]
 						}
+						solutionsMutex.Unlock()
 
 						cycle := (r-1)/parallelRuns + 1
 
@@ -442,7 +445,10 @@ func (s *parallelSolverImpl) Solve(
 			}
 
 			verifYield("agg_update")
-			bestSolution = solverResult.Solution.Copy()
+			newBestSolution := solverResult.Solution.Copy()
+			bestSolutionMutex.Lock()
+			bestSolution = newBestSolution
+			bestSolutionMutex.Unlock()
 
 			reportBestSolution(solutionContainer{
 				Solution:   solverResult.Solution.Copy(),
